@@ -197,9 +197,9 @@ func newC01Sys(ops []c01Op, keys [][]byte, prefill map[string][]byte, maxWrap, m
 	return s
 }
 
-func (s *c01Sys) top() *cachekv.Store         { return s.layers[len(s.layers)-1] }
-func (s *c01Sys) view() map[string][]byte     { return s.views[len(s.views)-1] }
-func (s *c01Sys) Close()                      { s.closeIters() }
+func (s *c01Sys) top() *cachekv.Store     { return s.layers[len(s.layers)-1] }
+func (s *c01Sys) view() map[string][]byte { return s.views[len(s.views)-1] }
+func (s *c01Sys) Close()                  { s.closeIters() }
 func (s *c01Sys) closeIters() {
 	for _, it := range s.iters {
 		it.impl.Close()
